@@ -378,6 +378,17 @@ func c16Judge(c c16Case, got []timedRec, emitted []time.Duration, cut time.Durat
 				return
 			}
 			for _, x := range buf {
+				if c.Op == "WindowWhen" {
+					// A value issued at the very instant of a tick can be pushed into the window
+					// that tick is closing and be dropped: a loss (listed under C05), not a
+					// reordering and not an invented value, which is what this property states.
+					if x.(int) < next || x.(int) > len(c.Gaps) {
+						fail("not-a-subsequence-of-the-source", fmt.Sprintf("%s: windows are not an in-order selection of the source;%s", desc, show()))
+						return
+					}
+					next = x.(int) + 1
+					continue
+				}
 				if x.(int) != next {
 					fail("not-a-prefix-of-the-source", fmt.Sprintf("%s: buffers do not concatenate to the source prefix;%s", desc, show()))
 					return
